@@ -53,6 +53,20 @@ def ref_states(spec, u1, u0, v0, a0):
     raise KeyError(a)
 
 
+def state_mags(spec, u1, u0, v0, a0):
+    """Cancellation-free magnitudes of (u_t, v_t, a_t): the states are linear in (u1, u0, v0, a0), so the sum of the
+    magnitudes of the four separate contributions bounds every intermediate term of the evaluation."""
+    z = np.zeros_like(u0)
+    mags = [0.0, 0.0, 0.0]
+    for args in ((u1, z, z, z), (z, u0, z, z), (z, z, v0, z), (z, z, z, a0)):
+        ut, vt, at, v1, a1 = ref_states(spec, *args)
+        # v_t and a_t are formed from the end-of-step v1, a1 and the history: those intermediates count too
+        # (midpoint: v1 = -v0 + ..., v_t = (v1 + v0)/2 has a zero net coefficient on v0 but rounds at |v0|)
+        for k, fs in enumerate(((ut,), (vt, v1, args[2]), (at, a1, args[3]))):
+            mags[k] += max((float(np.max(np.abs(f))) for f in fs if f is not None and np.size(f)), default=0.0)
+    return mags
+
+
 def ref_step(spec, K, C, M, F, known, uD, u0, v0, a0):
     """One step of the documented scheme with dense algebra.  Returns (u1, v1, a1, cond, info)."""
     n = u0.size
@@ -397,22 +411,23 @@ class DynWorld(World):
                 raise Violation("weights-not-derivatives", f"forward Euler weights are {(cK, cC, cM)}, documented system is M a^n = ...")
             ctx.checked()
             return "ok"
-        for nm, c, f0, f1 in zip(("K", "C", "M"), (cK, cC, cM), e0, e1):
+        mags = state_mags(self.spec, np.abs(x) + np.abs(d), u0, v0, a0)
+        for nm, c, f0, f1, mag in zip(("K", "C", "M"), (cK, cC, cM), e0, e1, mags):
             if f0 is None:
                 if c != 0:
                     raise Violation("weights-not-derivatives", f"coef{nm}={c} although the scheme has no such evaluation state")
                 continue
             deriv = (f1 - f0)  # affine: equals c * d exactly
-            scale = max(refs.maxabs(f0), refs.maxabs(f1), abs(c) * refs.maxabs(d), 1e-300)
+            scale = max(refs.maxabs(f0), refs.maxabs(f1), abs(c) * refs.maxabs(d), mag, 1e-300)
             if not refs.maxabs(deriv - c * d) <= 1e-9 * scale:
                 raise Violation("weights-not-derivatives", f"[{self.spec}] coef{nm}={c} is not d({nm.lower()}_t)/d(u_n+1): defect {refs.maxabs(deriv - c * d):.3e}, scale {scale:.3e}")
             ctx.checked()
         # and the evaluation states are the documented ones
         ut, vt, at, _, _ = ref_states(self.spec, x, u0, v0, a0)
-        for nm, got, ref in zip(("u_t", "v_t", "a_t"), e0, (ut, vt, at)):
+        for nm, got, ref, mag in zip(("u_t", "v_t", "a_t"), e0, (ut, vt, at), mags):
             if ref is None or got is None:
                 continue
-            scale = max(refs.maxabs(ref), 1e-300)
+            scale = max(refs.maxabs(ref), mag, 1e-300)
             if not refs.maxabs(got - ref) <= 1e-9 * scale:
                 raise Violation("evaluation-state-not-documented", f"[{self.spec}] {nm} differs from the documented definition: {refs.maxabs(got - ref):.3e} (scale {scale:.3e})")
             ctx.checked()
